@@ -250,3 +250,37 @@ Definition spec_b (m : md) (o : op) (out : outcome) : bool :=
       | _ => false
       end
   end.
+
+(* ---------------------------------------------------------------- long-lived entities (round 3) *)
+(* "Published in the requester's metadata" / "found in the target provider's metadata" / "registered for
+   that requester" mean the metadata the entity holds WHEN it handles the operation: what the latest
+   refresh that the entity reported as successful (reload_metadata returned True) loaded into the entity
+   that handles the operation, else what it was created with.  A configuration that does not load never
+   comes into force, and a refresh of one entity says nothing about another entity of the process.
+   steps = what was done, obs = what was observed (the outcome of every operation, the verdict of every
+   refresh). *)
+Fixpoint spec_seq (st : stores) (steps : list sstep) (obs : list sobs) : Prop :=
+  match steps, obs with
+  | [], [] => True
+  | SOp k o :: r, OOut out :: r' => spec (st k) o out /\ spec_seq st r r'
+  | SReload k m :: r, OReloaded ok :: r' => spec_seq (if ok then upd k m st else st) r r'
+  | SReloadFail k :: r, OReloaded _ :: r' => spec_seq st r r'
+  | _, _ => False
+  end.
+
+Fixpoint spec_seq_b (st : stores) (steps : list sstep) (obs : list sobs) : bool :=
+  match steps, obs with
+  | [], [] => true
+  | SOp k o :: r, OOut out :: r' => spec_b (st k) o out && spec_seq_b st r r'
+  | SReload k m :: r, OReloaded ok :: r' => spec_seq_b (if ok then upd k m st else st) r r'
+  | SReloadFail k :: r, OReloaded _ :: r' => spec_seq_b st r r'
+  | _, _ => false
+  end.
+
+(* the metadata in force for every entity after the steps, as judged from the recorded verdicts *)
+Fixpoint stores_seen (st : stores) (steps : list sstep) (obs : list sobs) : stores :=
+  match steps, obs with
+  | SReload k m :: r, OReloaded ok :: r' => stores_seen (if ok then upd k m st else st) r r'
+  | _ :: r, _ :: r' => stores_seen st r r'
+  | _, _ => st
+  end.
